@@ -101,7 +101,8 @@ def convert(model: nn.Module, input_example: Any, conversion_type: str,
     add_node_properties(mod)
     if conversion_type in ('autoimport', 'export'):
         # dictionary of shared feature maskers. Used only in 'autoimport' mode.
-        sm_dict = {} if conversion_type != 'autoimport' else build_shared_features_map(mod)
+        sm_dict = {} if conversion_type != 'autoimport' else build_shared_features_map(
+            mod, exclude_names, exclude_types)
         convert_layers(mod, conversion_type, sm_dict, exclude_names, exclude_types, fold_bn)
     if conversion_type in ('autoimport', 'import'):
         fuse_pit_modules(mod, fold_bn)
@@ -156,7 +157,10 @@ def convert_layers(mod: fx.GraphModule,
     return
 
 
-def build_shared_features_map(mod: fx.GraphModule) -> Dict[fx.Node, PITFeaturesMasker]:
+def build_shared_features_map(mod: fx.GraphModule,
+                              exclude_names: Iterable[str] = (),
+                              exclude_types: Iterable[Type[nn.Module]] = (),
+                              ) -> Dict[fx.Node, PITFeaturesMasker]:
     """Create a map from fx.Node instances to instances of PITFeaturesMasker to be used by PIT
     to optimize the number of features of that node. Handles the sharing of masks among
     multiple nodes.
@@ -193,6 +197,10 @@ def build_shared_features_map(mod: fx.GraphModule) -> Dict[fx.Node, PITFeaturesM
     for n in nodes_to_remove:
         sharing_graph.remove_node(n)
 
+    def _is_excluded_layer(n: fx.Node) -> bool:
+        return is_layer(n, mod, tuple(pit_layer_map.keys())) and exclude(
+            n, mod, exclude_names, exclude_types)
+
     # each weakly connected component of the sharing graph must share the same features masker
     sm_dict = {}
     for c in nx.weakly_connected_components(sharing_graph):
@@ -206,7 +214,11 @@ def build_shared_features_map(mod: fx.GraphModule) -> Dict[fx.Node, PITFeaturesM
                 if (
                     any(n in get_graph_inputs(mod.graph) for n in c) or
                     any(n in get_graph_outputs(mod.graph) for n in c) or
-                    any(n.meta.get('output_connected', False) for n in c)
+                    any(n.meta.get('output_connected', False) for n in c) or
+                    # layers excluded from the search keep their static shapes, so the features
+                    # they produce or consume cannot be pruned either
+                    any(_is_excluded_layer(n) or any(_is_excluded_layer(u) for u in n.users)
+                        for n in c)
                 ):
                     sm = PITFrozenFeaturesMasker(n.meta['tensor_meta'].shape[1])
                 else:
